@@ -6,6 +6,7 @@ package props
 // cases of a unit run concurrently.
 
 import (
+	"context"
 	"encoding/json"
 	"fmt"
 	"os"
@@ -27,8 +28,9 @@ type c19Scenario struct {
 	Stop       string   `json:"stop"`        // none | before_first_tick | in_retry | after_rounds
 	StopOffMs  int      `json:"stop_off_ms"` // in_retry: offset into the retry wait after the first failure
 	StopTwice  bool     `json:"stop_twice"`
-	FastTick   bool     `json:"fast_tick"`         // 100 us interval: a tick is practically always pending when Stop is called
-	PingMs     int      `json:"ping_ms,omitempty"` // every scripted ping takes this long to answer (a ping that fails by timing out is slow)
+	FastTick   bool     `json:"fast_tick"`          // 100 us interval: a tick is practically always pending when Stop is called
+	ErrKind    int      `json:"err_kind,omitempty"` // rotates the kind of error the failing pings return (plain / deadline exceeded / canceled)
+	PingMs     int      `json:"ping_ms,omitempty"`  // every scripted ping takes this long to answer (a ping that fails by timing out is slow)
 }
 
 const c19IntervalMs = 10
@@ -76,6 +78,14 @@ func c19Child(raw json.RawMessage) any {
 			select {
 			case firstFail <- struct{}{}:
 			default:
+			}
+			// the ways a ping fails: an ordinary error, or - the usual case against a hung cluster - the ping's own
+			// deadline (client.Ping returns its context's error then)
+			switch (i + sc.ErrKind) % 3 {
+			case 1:
+				return fmt.Errorf("injected ping failure #%d: %w", i, context.DeadlineExceeded)
+			case 2:
+				return fmt.Errorf("injected ping failure #%d: %w", i, context.Canceled)
 			}
 			return fmt.Errorf("injected ping failure #%d", i)
 		}
@@ -313,7 +323,7 @@ func TestC19_RoundsExhaustive(t *testing.T) {
 		if i%nsh != sh {
 			continue
 		}
-		scs = append(scs, c19Scenario{Rounds: []string{c19Issued(p)}, Stop: "after_rounds", StopTwice: i%2 == 0, StartTwice: i%3 == 0})
+		scs = append(scs, c19Scenario{Rounds: []string{c19Issued(p)}, Stop: "after_rounds", StopTwice: i%2 == 0, StartTwice: i%3 == 0, ErrKind: i % 3})
 		// the long rounds again with slow pings (a failing ping usually fails by timing out): the round then lasts longer
 		// than five retry waits, and must still end only by its first success or its fifth failure
 		if strings.HasPrefix(p, "FFF") {
@@ -349,7 +359,7 @@ func TestC19_Sequences(t *testing.T) {
 			return // one generated batch per shard; the batch runs concurrently below
 		}
 		for i := 0; i < (n+nsh-1)/nsh; i++ {
-			sc := c19Scenario{StartTwice: rapid.Bool().Draw(rt, "start2"), StopTwice: rapid.Bool().Draw(rt, "stop2")}
+			sc := c19Scenario{StartTwice: rapid.Bool().Draw(rt, "start2"), StopTwice: rapid.Bool().Draw(rt, "stop2"), ErrKind: rapid.IntRange(0, 2).Draw(rt, "errkind")}
 			sc.Stop = rapid.SampledFrom([]string{"none", "before_first_tick", "in_retry", "in_retry", "after_rounds", "after_rounds", "after_rounds_fast", "after_rounds_fast"}).Draw(rt, "stop")
 			switch sc.Stop {
 			case "before_first_tick":
